@@ -159,14 +159,21 @@ Runs(r) == [x \in 1..Len(r.runs) |->
 
 Vacuous(r) == ~(Covered(r.runs, r.need) /\ OneInput(r.runs) /\ SeedsVary(r.runs))
 
-Why(r) == IF Vacuous(r) THEN <<"vacuous">>
-          ELSE IF ~Deterministic(Runs(r)) THEN <<"det", Divergence(Runs(r)), Deviants(Runs(r))>>
-          ELSE IF OrdBad(r) # {} THEN <<"ord", OrdBad(r)>>
-          ELSE IF DirBad(r) # {} THEN <<"dir", DirBad(r)>>
-          ELSE IF HashBad(r) # {} THEN <<"hash", HashBad(r)>>
-          ELSE <<"ok">>
+Tag(r) == IF Vacuous(r) THEN "vacuous"
+          ELSE IF ~Deterministic(Runs(r)) THEN "det"
+          ELSE IF OrdBad(r) # {} THEN "ord"
+          ELSE IF DirBad(r) # {} THEN "dir"
+          ELSE IF HashBad(r) # {} THEN "hash"
+          ELSE "ok"
+\* details for the report (evaluated for rejected records only)
+Why(r) == CASE Tag(r) = "vacuous" -> <<"vacuous">>
+            [] Tag(r) = "det"  -> <<"det", Divergence(Runs(r)), Deviants(Runs(r))>>
+            [] Tag(r) = "ord"  -> <<"ord", OrdBad(r)>>
+            [] Tag(r) = "dir"  -> <<"dir", DirBad(r)>>
+            [] Tag(r) = "hash" -> <<"hash", HashBad(r)>>
+            [] OTHER -> <<"ok">>
 
-Good(r) == Why(r)[1] = "ok"
+Good(r) == Tag(r) = "ok"
 
 \* one trivial initial state; the records are enumerated in Next (TLC evaluates the
 \* invariant of initial states on its main thread, whose stack is small)
